@@ -158,6 +158,7 @@ package lexer
 // One token per scanned lexeme, in order; `#` comments produce no token; the first lexeme that is
 // not a token ends the scan with the error recorded. The loop consumes input on every round.
 //@ func Tokenize
+//@   modifies *, scanRemaining(*)
 //@   capture sc = call(l.scanner.Scan, 0)
 //@   capture tt = call(l.scanner.TokenText, 0)
 //@   capture cm = call(lexerql.ScanComment, 0)
